@@ -1775,7 +1775,12 @@ class SpaceUpdater(SharedSpaceOperations):
             nodes_removed.append(child)
             self._remove_hook(self._graph, child)
 
-        for _, v in nx.edge_bfs(self.manager._graph, node):
+        # Sub spaces of the removed spaces, bases before their subs
+        subs = set()
+        for n in nodes_removed:
+            subs.update(nx.descendants(self.manager._graph, n))
+        subs.difference_update(nodes_removed)
+        for v in nx.topological_sort(self.manager._graph.subgraph(subs)):
             self._instructions.append(
                 Instruction(self._update_derived_space, (v,))
             )
